@@ -1,8 +1,23 @@
 (** C09 — every record appended by a worklist method conforms to the Tecan worklist grammar of its record
     type and, decoded by the independent parser of Spec/Gwl.v, returns exactly the arguments supplied;
     a call whose arguments cannot be represented raises and appends nothing.
-    Statements only; proofs live in Proofs/RecordsProofs.v. *)
-From Robo Require Import Prelude Str Wells Utils Tips Records Params Gwl RecordsProofs.
+    Statements only; proofs live in Proofs/RecordsProofs.v and Proofs/TextExtraProofs.v.
+
+    FINDING F21 (review item M2), FIXED in /repo by commit 26768d9.  [set_diti] did not validate its index and
+    [reagent_distribution] validated neither [diti_reuse] nor [multi_disp]; with negative integers they
+    appended "S;-1" resp. "R;...;-1;-3;0", which are outside the grammar.  Both methods now raise ValueError
+    for a negative (or non-int) value and append nothing (C09_reject_negative_counts), so every record
+    appended by a record-level method is inside the grammar (C09_grammar) and the end-to-end theorems
+    (C09_set_diti_end_to_end, C09_reagent_end_to_end, C09_reagent_float_end_to_end, C09_distribute_end_to_end)
+    carry no hypothesis besides "the call was accepted".  The record-level lemmas about an ARBITRARY [RS i] /
+    [RR f] value (C09_roundtrip_simple, C09_fields_simple, C09_roundtrip_R, C09_oneline_R, C09_roundtrip_R_float,
+    C09_roundtrip_R_int) legitimately keep the hypothesis [0 <= ...]: a record value with a negative integer is
+    not in the grammar (C09_set_diti_grammar); the methods never build one (C09_set_diti_end_to_end,
+    C09_reagent_ok: [r_nosep f /\ r_nonneg f] holds of every record [reagent_distribution] appends).
+
+    The value of a written decimal ([dec_val], [frac_val]) is defined in Spec/CmdParse.v. *)
+From Robo Require Import Prelude Str Wells Utils Labware Tips Records Params Worklist Gwl CmdParse RecordsProofs
+  TextExtraProofs RefinementProofs RefinementTextProofs.
 From Coq Require Import Sorted Permutation.
 Local Open Scope string_scope.
 
@@ -44,6 +59,8 @@ Theorem C09_simple_texts :
 Proof. exact rc_simple_texts. Qed.
 Print Assumptions C09_simple_texts.
 
+(** record level; the last clause is about an arbitrary record value [RS i] and holds exactly for [0 <= i]
+    (C09_set_diti_grammar below); [set_diti] only appends such records (C09_set_diti_end_to_end) *)
 Theorem C09_roundtrip_simple :
   parse_record (render (RW None)) = Some (PW None) /\
   (forall n, (1 <= n <= 4)%nat -> parse_record (render (RW (Some n))) = Some (PW (Some (N.of_nat n)))) /\
@@ -55,7 +72,13 @@ Theorem C09_roundtrip_simple :
 Proof. exact rc_roundtrip_simple. Qed.
 Print Assumptions C09_roundtrip_simple.
 
-(** two fields each; the second one is empty for the keyword records *)
+(** the S record is inside the grammar exactly when the index is not negative *)
+Theorem C09_set_diti_grammar : forall i : Z, parse_record (render (RS i)) <> None <-> (0 <= i)%Z.
+Proof. exact tx_RS_grammar. Qed.
+Print Assumptions C09_set_diti_grammar.
+
+(** two fields each; the second one is empty for the keyword records
+    (record level: the S clause is about an arbitrary [RS i], hence [0 <= i]) *)
 Theorem C09_fields_simple :
   (forall r, In r [RW None; RW (Some 1%nat); RW (Some 2%nat); RW (Some 3%nat); RW (Some 4%nat); RWD; RF; RB] ->
      exists k, split_on ";"%char (render r) = [k; ""]) /\
@@ -306,15 +329,36 @@ Theorem C09_comment : forall w,
 Proof. exact rc_comment. Qed.
 Print Assumptions C09_comment.
 
-(** set_diti: only at the start of the worklist or directly after a break record *)
+(** set_diti: a negative index is a ValueError (checked first); otherwise accepted only at the start of the
+    worklist or directly after a break record *)
 Theorem C09_set_diti : forall w i,
-  (w_recs w = [] -> set_diti w i = (emit w [RS i], None)) /\
-  (forall l r, w_recs w = (l ++ [r])%list -> is_break_like r = true ->
+  ((i < 0)%Z -> set_diti w i = (w, Some EReject)) /\
+  ((0 <= i)%Z -> w_recs w = [] -> set_diti w i = (emit w [RS i], None)) /\
+  (forall l r, (0 <= i)%Z -> w_recs w = (l ++ [r])%list -> is_break_like r = true ->
      set_diti w i = (emit w [RS i], None)) /\
-  (forall l r, w_recs w = (l ++ [r])%list -> is_break_like r = false ->
+  (forall l r, (0 <= i)%Z -> w_recs w = (l ++ [r])%list -> is_break_like r = false ->
      set_diti w i = (w, Some EInvalidOp)).
 Proof. exact rc_set_diti. Qed.
 Print Assumptions C09_set_diti.
+
+(** every outcome: a raising call appends nothing; an accepted call had a non-negative index, was made at the
+    start or after a break and appends exactly the S record *)
+Theorem C09_set_diti_cases : forall w i w' e, set_diti w i = (w', e) ->
+  match e with
+  | Some _ => w' = w
+  | None => (0 <= i)%Z /\ w' = emit w [RS i] /\
+            (w_recs w = [] \/ exists l r, w_recs w = (l ++ [r])%list /\ is_break_like r = true)
+  end.
+Proof. exact rc_set_diti_cases. Qed.
+Print Assumptions C09_set_diti_cases.
+
+(** method call -> appended record -> text -> parser -> the index given; no hypothesis on the index *)
+Theorem C09_set_diti_end_to_end : forall w i w', set_diti w i = (w', None) ->
+  exists n, w' = emit w [RS i] /\ w_recs w' = (w_recs w ++ [RS i])%list /\
+            parse_record (render (RS i)) = Some (PS n) /\ Z.of_N n = i /\
+            split_on ";"%char (render (RS i)) = ["S"; decN n].
+Proof. exact rc_set_diti_end_to_end. Qed.
+Print Assumptions C09_set_diti_end_to_end.
 
 Theorem C09_break_like : forall r,
   is_break_like r = true <-> r = RB \/ exists s, r = RCmd (String "B" s).
@@ -332,6 +376,10 @@ Definition r_nonneg (f : rfields) : Prop :=
   (0 <= r_src_start f)%Z /\ (0 <= r_src_end f)%Z /\ (0 <= r_dst_start f)%Z /\ (0 <= r_dst_end f)%Z /\
   (0 <= r_diti_reuse f)%Z /\ (0 <= r_multi_disp f)%Z /\ Forall (fun x => (0 <= x)%Z) (r_exclude f).
 
+(** record level, for an arbitrary [RR f]: [r_nosep f] and [r_nonneg f] are needed (a negative integer is not in
+    the grammar) and hold of every R record [reagent_distribution] appends (C09_reagent_ok; the method call
+    itself: C09_reagent_end_to_end).
+    The VALUE of the volume field is in C09_roundtrip_R_float / C09_roundtrip_R_int below. *)
 Theorem C09_roundtrip_R : forall f : rfields, r_nosep f -> r_nonneg f ->
   exists p,
     parse_record (render (RR f)) = Some (PR p) /\
@@ -351,7 +399,7 @@ Theorem C09_roundtrip_R : forall f : rfields, r_nosep f -> r_nonneg f ->
 Proof. exact rc_roundtrip_R. Qed.
 Print Assumptions C09_roundtrip_R.
 
-(** one line *)
+(** one line (record level, under [r_nonneg]; for the method call: C09_reagent_oneline) *)
 Theorem C09_oneline_R : forall (f : rfields) (c : ascii), r_nonneg f ->
   is_digit c = false -> c <> "."%char -> c <> "-"%char -> c <> ";"%char -> c <> "R"%char ->
   contains_char c (r_src_label f) = false -> contains_char c (r_src_id f) = false ->
@@ -361,6 +409,46 @@ Theorem C09_oneline_R : forall (f : rfields) (c : ascii), r_nonneg f ->
   contains_char c (render (RR f)) = false.
 Proof. exact rc_oneline_R. Qed.
 Print Assumptions C09_oneline_R.
+
+(* ------------------------------------------------------------------------------------------ *)
+(** ** C09_roundtrip_R_float: the value of the volume field (review item M3) *)
+
+(** the decimal the model writes for a float volume ([pyrepr_float]: the exact terminating expansion of a
+    non-negative dyadic rational), read back with the independent [parse_decimal] and valued digit by digit
+    with [dec_val], is the number itself.  Every binary64 float is dyadic; Python's [repr] is this exact
+    expansion on the domain of the correspondence check (grids k / 2^e, e <= 10, DESIGN 3.3 / 5), while for a
+    float such as 0.1 = 3602879701896397 / 2^55 Python writes the shortest round-trip decimal "0.1" and the
+    model the 55-digit expansion - both are read back to within the float's precision, only the model's
+    exactly. *)
+Theorem C09_decimal_value : forall (q : Q) (k : nat),
+  (0 <= q)%Q -> Npos (Qden (Qred q)) = (2 ^ N.of_nat k)%N ->
+  exists i fp, parse_decimal (pyrepr_float q) = Some (i, fp) /\ all_digits fp = true /\ fp <> "" /\
+               (dec_val i fp == q)%Q.
+Proof. exact tx_pyrepr_float_value. Qed.
+Print Assumptions C09_decimal_value.
+
+(** the decimal [repr_dec n k] is n / 10^k *)
+Theorem C09_repr_dec_value : forall (n : N) (k : nat), exists i fp,
+  parse_decimal (repr_dec n k) = Some (i, fp) /\
+  (dec_val i fp == inject_Z (Z.of_N n) / inject_Z (10 ^ Z.of_nat k))%Q.
+Proof. exact tx_repr_dec_value. Qed.
+Print Assumptions C09_repr_dec_value.
+
+(** the parsed volume field of an R record with a dyadic float volume has the value of the volume ... *)
+Theorem C09_roundtrip_R_float : forall (f : rfields) (q : Q) (k : nat), r_nosep f -> r_nonneg f ->
+  r_volume f = PyF q -> (0 <= q)%Q -> Npos (Qden (Qred q)) = (2 ^ N.of_nat k)%N ->
+  exists p i fp, parse_record (render (RR f)) = Some (PR p) /\
+                 parse_decimal (pr_volume p) = Some (i, fp) /\ (dec_val i fp == q)%Q.
+Proof. exact tx_roundtrip_R_float. Qed.
+Print Assumptions C09_roundtrip_R_float.
+
+(** ... and so has an int volume *)
+Theorem C09_roundtrip_R_int : forall (f : rfields) (z : Z), r_nosep f -> r_nonneg f ->
+  r_volume f = PyI z -> (0 <= z)%Z ->
+  exists p i, parse_record (render (RR f)) = Some (PR p) /\
+              parse_decimal (pr_volume p) = Some (i, "") /\ (dec_val i "" == inject_Z z)%Q.
+Proof. exact tx_roundtrip_R_int. Qed.
+Print Assumptions C09_roundtrip_R_int.
 
 (* ------------------------------------------------------------------------------------------ *)
 (** ** C09_reagent: reagent_distribution *)
@@ -405,7 +493,8 @@ Theorem C09_reagent_ok : forall w a w', reagent_distribution w a = (w', None) ->
     (0 <= pynum_q (r_volume f))%Q /\ (pynum_q (r_volume f) <= 7158278)%Q /\
     (pynum_q (r_volume f) <= w_max w)%Q /\
     Forall (fun x => (r_dst_start f <= x <= r_dst_end f)%Z) (r_exclude f) /\
-    Forall (fun x => (0 <= x)%Z) (r_exclude f).
+    Forall (fun x => (0 <= x)%Z) (r_exclude f) /\
+    (0 <= r_diti_reuse f)%Z /\ (0 <= r_multi_disp f)%Z.
 Proof. exact rc_reagent_ok. Qed.
 Print Assumptions C09_reagent_ok.
 
@@ -414,10 +503,17 @@ Theorem C09_reagent_err : forall w a w' e, reagent_distribution w a = (w', Some 
 Proof. exact rc_reagent_err. Qed.
 Print Assumptions C09_reagent_err.
 
-(** method call -> record -> text -> parser -> the arguments. The method does not validate diti_reuse and
-    multi_disp; the record is readable when they are not negative. *)
+(** the hypotheses of the record-level theorems hold of every record the method appends, which therefore
+    parses *)
+Theorem C09_reagent_representable : forall w a w', reagent_distribution w a = (w', None) ->
+  exists f, w_recs w' = (w_recs w ++ [RR f])%list /\ r_nosep f /\ r_nonneg f /\
+            exists p, parse_record (render (RR f)) = Some (PR p).
+Proof. exact rc_reagent_representable. Qed.
+Print Assumptions C09_reagent_representable.
+
+(** method call -> record -> text -> parser -> the arguments; no hypothesis besides acceptance (diti_reuse and
+    multi_disp are validated since /repo commit 26768d9, F21) *)
 Theorem C09_reagent_end_to_end : forall w a w', reagent_distribution w a = (w', None) ->
-  (0 <= rd_diti_reuse a)%Z -> (0 <= rd_multi_disp a)%Z ->
   exists f p,
     w_recs w' = (w_recs w ++ [RR f])%list /\ parse_record (render (RR f)) = Some (PR p) /\
     rd_src_label a = PStr (pr_src_label p) /\ rd_src_id a = PStr (pr_src_id p) /\
@@ -434,6 +530,94 @@ Theorem C09_reagent_end_to_end : forall w a w', reagent_distribution w a = (w', 
     map Z.of_N (pr_exclude p) = sort_Z (excl_arg a).
 Proof. exact rc_reagent_end_to_end. Qed.
 Print Assumptions C09_reagent_end_to_end.
+
+(** method call with a (dyadic) float volume -> record -> text -> parser -> the VALUE of the volume field is
+    the volume given *)
+Theorem C09_reagent_float_end_to_end : forall w a w' (q : Q) (k : nat),
+  reagent_distribution w a = (w', None) ->
+  rd_volume a = RVFloat (XQ q) -> Npos (Qden (Qred q)) = (2 ^ N.of_nat k)%N ->
+  exists f p i fp,
+    w_recs w' = (w_recs w ++ [RR f])%list /\ parse_record (render (RR f)) = Some (PR p) /\
+    parse_decimal (pr_volume p) = Some (i, fp) /\ (dec_val i fp == q)%Q.
+Proof. exact tx_reagent_float_end_to_end. Qed.
+Print Assumptions C09_reagent_float_end_to_end.
+
+(** one line: an accepted call writes a character that is not a digit, ".", "-", ";", "R" (in particular LF
+    and CR) only if a text argument contains it *)
+Theorem C09_reagent_oneline : forall w a w' (c : ascii), reagent_distribution w a = (w', None) ->
+  is_digit c = false -> c <> "."%char -> c <> "-"%char -> c <> ";"%char -> c <> "R"%char ->
+  (forall t s, In t [rd_src_label a; rd_src_id a; rd_src_type a; rd_dst_label a; rd_dst_id a; rd_dst_type a;
+                     rd_liquid_class a] -> t = PStr s -> contains_char c s = false) ->
+  exists f, w_recs w' = (w_recs w ++ [RR f])%list /\ contains_char c (render (RR f)) = false.
+Proof. exact rc_reagent_oneline. Qed.
+Print Assumptions C09_reagent_oneline.
+
+(* ------------------------------------------------------------------------------------------ *)
+(** ** C09_grammar (review item M2; was C09_grammar_refuted before /repo commit 26768d9, finding F21) *)
+
+(** the record is read by the independent parser *)
+Definition parsable (r : srec) : Prop := parse_record (render r) <> None.
+
+(** going from [w] to [w'] appended the records [rs] (none if the call raised), all inside the grammar *)
+Definition appends_parsable (w w' : wstate) : Prop :=
+  exists rs, w_recs w' = (w_recs w ++ rs)%list /\ Forall parsable rs.
+
+(** every record appended by set_diti / reagent_distribution / comment / wash / decontaminate / flush /
+    commit / aspirate_well / dispense_well conforms to the grammar, whatever the arguments and whether or not
+    the call raises *)
+Theorem C09_grammar : forall w w' e,
+  (forall i, set_diti w i = (w', e) -> appends_parsable w w') /\
+  (forall a, reagent_distribution w a = (w', e) -> appends_parsable w w') /\
+  (forall c, comment w c = (w', e) -> appends_parsable w w') /\
+  (forall s, wash w s = (w', e) -> appends_parsable w w') /\
+  (decontaminate w = (w', e) -> appends_parsable w w') /\
+  (flush w = (w', e) -> appends_parsable w w') /\
+  (commit w = (w', e) -> appends_parsable w w') /\
+  (forall a, aspirate_well w a = (w', e) -> appends_parsable w w') /\
+  (forall a, dispense_well w a = (w', e) -> appends_parsable w w').
+Proof. exact rc_grammar. Qed.
+Print Assumptions C09_grammar.
+
+(** ... and so does every record appended by [distribute] (comment records, then one R record through
+    [reagent_distribution]), for every outcome of the call *)
+Theorem C09_distribute_grammar : forall s ks kd dwells a s' e,
+  distribute s ks kd dwells a = (s', e) -> appends_parsable (st_wl s) (st_wl s').
+Proof. exact distribute_parsable. Qed.
+Print Assumptions C09_distribute_grammar.
+
+(** an accepted [distribute]: comment records, then the R record, which parses back to the arguments passed
+    through (labware names, ids, types, volume, liquid class, DiTi reuse, direction; the multi-dispense count
+    is the record's, at most the one given) *)
+Theorem C09_distribute_end_to_end : forall s ks kd dwells a s', distribute s ks kd dwells a = (s', None) ->
+  exists Ls Ld cs f p,
+    nth_error (st_lw s) ks = Some Ls /\ nth_error (st_lw s) kd = Some Ld /\
+    w_recs (st_wl s') = (w_recs (st_wl s) ++ cs ++ [RR f])%list /\ Forall parsable cs /\
+    parse_record (render (RR f)) = Some (PR p) /\
+    pr_src_label p = lw_name Ls /\ pr_dst_label p = lw_name Ld /\
+    d_src_id a = PStr (pr_src_id p) /\ d_src_type a = PStr (pr_src_type p) /\
+    d_dst_id a = PStr (pr_dst_id p) /\ d_dst_type a = PStr (pr_dst_type p) /\
+    pr_volume p = render_pynum (r_volume f) /\
+    match d_volume a with
+    | RVInt z => r_volume f = PyI z
+    | RVFloat x => exists q, x = XQ q /\ r_volume f = PyF q
+    | RVBad => False
+    end /\
+    d_liquid_class a = PStr (pr_liquid_class p) /\
+    Z.of_N (pr_diti_reuse p) = d_diti_reuse a /\
+    Z.of_N (pr_multi_disp p) = r_multi_disp f /\ (r_multi_disp f <= d_multi_disp a)%Z /\
+    d_direction a = (if pr_direction p then "right_to_left" else "left_to_right").
+Proof. exact distribute_end_to_end. Qed.
+Print Assumptions C09_distribute_end_to_end.
+
+(** C09_reject_negative_counts: a negative DiTi index, DiTi reuse or multi-dispense count is a ValueError
+    (whatever the other arguments: everything checked before raises ValueError too) and nothing is appended.
+    Fixed in /repo by commit 26768d9 (finding F21); before, these calls were accepted. *)
+Theorem C09_reject_negative_counts : forall w,
+  (forall i, (i < 0)%Z -> set_diti w i = (w, Some EReject)) /\
+  (forall a, (rd_diti_reuse a < 0 \/ rd_multi_disp a < 0)%Z ->
+     reagent_distribution w a = (w, Some EReject)).
+Proof. exact rc_reject_negative_counts. Qed.
+Print Assumptions C09_reject_negative_counts.
 
 (** rejections: direction, positions, excluded wells, texts, volume *)
 Theorem C09_reagent_reject_direction : forall w a,
@@ -543,6 +727,18 @@ Example C09_example_R_float :
   parse_decimal (render_pynum (PyI 50)) = Some (50%N, "").
 Proof. vm_compute. repeat split. Qed.
 
+(** the hypotheses of C09_decimal_value / C09_roundtrip_R_float hold for 12.5 = 25/2 and for 3.125 = 25/8;
+    the digits read back have the value of the number.  1/3 is not dyadic (no float has this value); the
+    model's printer is only meant for dyadic rationals and C09_decimal_value does not apply to it. *)
+Example C09_example_dyadic :
+  Npos (Qden (Qred (25 # 2))) = (2 ^ N.of_nat 1)%N /\ Npos (Qden (Qred (50 # 16))) = (2 ^ N.of_nat 3)%N /\
+  Npos (Qden (Qred 7)) = (2 ^ N.of_nat 0)%N /\
+  pyrepr_float (50 # 16) = "3.125" /\ parse_decimal "3.125" = Some (3%N, "125") /\
+  Qred (dec_val 3 "125") = (25 # 8)%Q /\ Qred (dec_val 12 "5") = (25 # 2)%Q /\
+  pyrepr_float 7 = "7.0" /\ Qred (dec_val 7 "0") = 7%Q /\
+  Qden (Qred (1 # 3)) = 3%positive.
+Proof. vm_compute. repeat split. Qed.
+
 (** rejected calls leave the worklist unchanged *)
 Example C09_example_reject :
   aspirate_well ex_w
@@ -564,10 +760,42 @@ Example C09_example_reject :
        rd_liquid_class := PStr "Water"; rd_direction := "right_to_left";
        rd_src_id := PStr ""; rd_src_type := PStr ""; rd_dst_id := PStr ""; rd_dst_type := PStr "" |}
     = (ex_w, Some EReject) /\
+  set_diti ex_w (-1) = (ex_w, Some EReject) /\
+  reagent_distribution ex_w
+    {| rd_src_label := PStr "T"; rd_src_start := PInt 1; rd_src_end := PInt 8;
+       rd_dst_label := PStr "P"; rd_dst_start := PInt 1; rd_dst_end := PInt 96;
+       rd_volume := RVInt 100; rd_diti_reuse := (-1)%Z; rd_multi_disp := (-3)%Z; rd_exclude := None;
+       rd_liquid_class := PStr ""; rd_direction := "left_to_right";
+       rd_src_id := PStr ""; rd_src_type := PStr ""; rd_dst_id := PStr ""; rd_dst_type := PStr "" |}
+    = (ex_w, Some EReject) /\
+  parse_record "S;-1" = None /\ parse_record "R;T;;;1;8;P;;;1;96;100;;-1;-3;0" = None /\
   set_diti ex_w 2 = (emit ex_w [RS 2%Z], None) /\
   set_diti (emit ex_w [RS 2%Z]) 3 = (emit ex_w [RS 2%Z], Some EInvalidOp) /\
   decontaminate {| w_recs := []; w_max := 950; w_autosplit := true; w_diti := true; w_dev := BaseDev |}
     = ({| w_recs := []; w_max := 950; w_autosplit := true; w_diti := true; w_dev := BaseDev |}, Some EInvalidOp).
+Proof. vm_compute. repeat split. Qed.
+
+(** [distribute] (state [ex_state Evo] of Proofs/RefinementProofs.v: plate "big" and 4-row trough "T4"): an
+    accepted call with a label and a float volume writes a comment and the R record, both parse; with a
+    negative multi-dispense count the call raises ValueError in [reagent_distribution], i.e. after the comment
+    has been written (the comment is inside the grammar, no R record is appended) *)
+Definition ex_dist (multi : Z) : distargs :=
+  {| d_source_column := 0; d_volume := RVFloat (XQ (25 # 2)); d_diti_reuse := 2; d_multi_disp := multi;
+     d_liquid_class := PStr "W"; d_label := Some "fill"; d_direction := "left_to_right";
+     d_src_id := PStr ""; d_src_type := PStr ""; d_dst_id := PStr ""; d_dst_type := PStr "" |}.
+
+Example C09_example_distribute :
+  let r := distribute (ex_state Evo) 1 0 (A1 ["A02"; "B02"]) (ex_dist 3) in
+  let r' := distribute (ex_state Evo) 1 0 (A1 ["A02"; "B02"]) (ex_dist (-1)) in
+  snd r = None /\
+  map render (w_recs (st_wl (fst r))) = ["C;fill"; "R;T4;;;1;4;big;;;3;4;12.5;W;2;3;0"] /\
+  map parse_record (map render (w_recs (st_wl (fst r)))) =
+    [Some (PC "fill");
+     Some (PR {| pr_src_label := "T4"; pr_src_id := ""; pr_src_type := ""; pr_src_start := 1; pr_src_end := 4;
+                 pr_dst_label := "big"; pr_dst_id := ""; pr_dst_type := ""; pr_dst_start := 3; pr_dst_end := 4;
+                 pr_volume := "12.5"; pr_liquid_class := "W"; pr_diti_reuse := 2; pr_multi_disp := 3;
+                 pr_direction := false; pr_exclude := [] |})] /\
+  snd r' = Some EReject /\ map render (w_recs (st_wl (fst r'))) = ["C;fill"].
 Proof. vm_compute. repeat split. Qed.
 
 (** comment lines, wash, and the simple records parse back *)
